@@ -313,7 +313,16 @@ func registerWeb(p *Program) {
 		if doc == nil {
 			return in.newErrorf("yaml: malformed document")
 		}
+		in.convFrame = fr
 		return in.decodeDoc(doc.(Iface), a[1].(Iface), "yaml", d.known)
+	}
+	I["(*gopkg.in/yaml.v3.Node).Decode"] = func(in *Interp, fr *frame, a []Value) Value {
+		n, ok := a[0].(Ptr).Obj.Tag.(*yamlNode)
+		if !ok {
+			panic(engineErr("yaml.Node.Decode on a node not built by the document model"))
+		}
+		in.convFrame = fr
+		return in.decodeDoc(n.doc, a[1].(Iface), "yaml", false)
 	}
 	// vpYAMLFile(path, doc): engine: remember the document for path (and create the file); doc == nil: malformed
 	I["vp:vpYAMLFile"] = func(in *Interp, fr *frame, a []Value) Value {
@@ -554,6 +563,8 @@ type cliModel struct {
 	args            Slice
 }
 
+type yamlNode struct{ doc Iface }
+
 type yamlDec struct {
 	r     Iface
 	known bool
@@ -604,6 +615,33 @@ func (in *Interp) decodeDoc(doc Iface, target Iface, tagKey string, known bool) 
 func (in *Interp) decodeInto(doc Iface, p Ptr, t types.Type, tagKey string, known bool) string {
 	if doc.T == nil {
 		return "" // null: leaves the zero value
+	}
+	if tagKey == "yaml" {
+		// yaml.v3: a type with UnmarshalYAML(*yaml.Node) decodes itself; the node it gets decodes
+		// with a *fresh* decoder (Node.Decode does not inherit KnownFields)
+		var fn *ssa.Function
+		if _, named := t.(*types.Named); named {
+			ms := in.P.Prog.MethodSets.MethodSet(types.NewPointer(t))
+			for i := 0; i < ms.Len(); i++ {
+				if ms.At(i).Obj().Name() == "UnmarshalYAML" {
+					fn = in.P.Prog.MethodValue(ms.At(i))
+				}
+			}
+		}
+		if fn != nil && fn.Signature.Params().Len() == 1 {
+			if np, ok := fn.Signature.Params().At(0).Type().(*types.Pointer); ok {
+				if nn, ok := np.Elem().(*types.Named); ok && nn.Obj().Name() == "Node" {
+					no := in.newObj(nn)
+					no.Tag = &yamlNode{doc: doc}
+					in.setField(no, nn, "Line", in.intConst(1))
+					res := in.call(fn, []Value{p, Ptr{Obj: no}}, nil, in.curFrame())
+					if e, ok := res.(Iface); ok && e.T != nil {
+						return "custom unmarshaler failed"
+					}
+					return ""
+				}
+			}
+		}
 	}
 	switch u := under(t).(type) {
 	case *types.Struct:
